@@ -326,6 +326,7 @@ type WorldCfg struct {
 	MaxPacketSize  int
 	AuthMethods    []auth.VerifyMethod
 	IP             string // listen IP, default 127.0.0.1
+	Wildcard       bool   // listen on every address (":port", dual-stack)
 	ListenPacket   func(network, address string) (net.PacketConn, error)
 	Listen         func(network, address string) (net.Listener, error)
 	Handler        func(w *World, h *Handler) gortsplib.ServerHandler // optional wrapper restricting the handler set
@@ -372,6 +373,9 @@ func StartWorld(cfg WorldCfg) (*World, error) {
 	if ip == "" {
 		ip = "127.0.0.1"
 	}
+	if cfg.Wildcard {
+		ip = "" // ":port": a dual-stack socket, on which IPv4 peers appear as IPv4-mapped IPv6 addresses
+	}
 	var lastErr error
 	for attempt := 0; attempt < 40; attempt++ {
 		w := &World{Scheme: "rtsp"}
@@ -411,6 +415,9 @@ func StartWorld(cfg WorldCfg) (*World, error) {
 			return nil, err
 		}
 		w.Host = s.NetListener().Addr().String()
+		if cfg.Wildcard {
+			w.Host = fmt.Sprintf("127.0.0.1:%d", s.NetListener().Addr().(*net.TCPAddr).Port)
+		}
 		if cfg.Desc != nil {
 			w.Desc = cfg.Desc
 			w.Stream = &gortsplib.ServerStream{Server: s, Desc: cfg.Desc}
